@@ -37,9 +37,19 @@ fn check_case_fmt(c: &NetCase, obs: &mut Obs, format: FilterFormat) -> Result<()
     let mut engine = build_engine_opts(&c.rules, false, false, &res, opts);
     let tag_refs: Vec<&str> = c.tags.iter().map(|s| s.as_str()).collect();
     engine.use_tags(&tag_refs);
+    // the same list through the default (optimising) constructor and, one rule at a time, through
+    // Blocker::add_filter: the rule-by-rule specification is the same for all three
+    let mut engine_opt = build_engine_opts(&c.rules, false, true, &res, opts);
+    engine_opt.use_tags(&tag_refs);
+    let mut refused = vec![];
+    let incremental = incremental_blocker(&c.rules, opts, &c.tags, &mut refused);
+    let store = adblock::resources::ResourceStorage::from_resources(res.iter().cloned());
     let tags: HashSet<String> = c.tags.iter().cloned().collect();
     let parsed = parse_network_opts(&c.rules, opts);
     let active = active_rules(&parsed);
+    if incremental.is_some() {
+        obs.label("incremental-blocker");
+    }
     for r in &c.reqs {
         if approx_tokens(&r.url) >= 120 {
             obs.exclude("url-with-120+-tokens");
@@ -84,6 +94,25 @@ fn check_case_fmt(c: &NetCase, obs: &mut Obs, format: FilterFormat) -> Result<()
         }
         if spec_csp != got_set {
             return Err(format!("request {:?}: csp spec {:?} engine {:?}", r, spec_csp, got_csp));
+        }
+        let hl = || hits.iter().map(|p| p.line.as_str()).collect::<Vec<&str>>();
+        let got = Verdict::of(&engine_opt.check_network_request(&req));
+        if let Err(e) = spec.agrees(&got) {
+            return Err(format!("request {:?} (optimising constructor): {} (rules matching individually: {:?})", r, e, hl()));
+        }
+        let got_set = engine_opt.get_csp_directives(&req).as_ref().map(|s| split_csp(s, &hits));
+        if spec_csp != got_set {
+            return Err(format!("request {:?} (optimising constructor): csp spec {:?} engine {:?}", r, spec_csp, got_set));
+        }
+        if let Some(b) = &incremental {
+            let got = Verdict::of(&b.check(&req, &store));
+            if let Err(e) = spec.agrees(&got) {
+                return Err(format!("request {:?} (rules added one at a time with Blocker::add_filter; refused as duplicates: {:?}): {} (rules matching individually: {:?})", r, refused, e, hl()));
+            }
+            let got_set = b.get_csp_directives(&req).as_ref().map(|s| split_csp(s, &hits));
+            if spec_csp != got_set {
+                return Err(format!("request {:?} (rules added one at a time with Blocker::add_filter): csp spec {:?} blocker {:?}", r, spec_csp, got_set));
+            }
         }
     }
     Ok(())
